@@ -662,7 +662,7 @@ def _enum_cases(tier):
 
 def subs(tier):
     return [
-        Enumerated("token_enum", check_token, cases=_enum_cases, budget_s_quick=12.0),
-        Generated("token", check_token, strategy=_token_cases, quick=2500, thorough=300000, budget_s_quick=14.0),
-        Generated("live", check_live, strategy=_live_cases, quick=1500, thorough=200000, budget_s_quick=14.0),
+        Enumerated("token_enum", check_token, cases=_enum_cases, budget_s_quick=10.0),
+        Generated("token", check_token, strategy=_token_cases, quick=6000, thorough=300000, budget_s_quick=16.0),
+        Generated("live", check_live, strategy=_live_cases, quick=5000, thorough=200000, budget_s_quick=14.0),
     ]
